@@ -280,3 +280,77 @@ def f7(repo: Repo) -> RuleResult:
         fd.part = "c"
         res.bad(fd)
     return res
+
+
+# --------------------------------------------------------------------------
+# F8 Python output: defaults denote existing members; suites are never empty
+# --------------------------------------------------------------------------
+
+
+@rule("F8", "generated Python: an enum default names a declared member; every opened suite gets a statement even for empty collections")
+def f8(repo: Repo) -> RuleResult:
+    res = RuleResult("F8", floor=2)
+    m = get_model(repo)
+    pf = m.cls("PyFormatter", "impls/py/formatter.py")
+    fe = pf.methods.get("format_default_value_enum")
+    if fe is None:
+        res.unsure("F8: PyFormatter.format_default_value_enum vanished")
+    else:
+        rets = [n for n in ast.walk(fe.node) if isinstance(n, ast.Return) and n.value is not None]
+        for r in rets:
+            shape = _fstring_shape(r.value) if isinstance(r.value, ast.JoinedStr) else src_of(r.value)
+            res.inst(function="PyFormatter.format_default_value_enum", template=shape)
+            by_member = "format_enum_field_name(" in shape
+            by_number = bool(re.search(r"\}\(\s*\d+\s*\)", shape)) or bool(re.search(r"\(\s*0\s*\)$", shape))
+            if by_number and not by_member:
+                res.bad(Finding("F8", pf.rel, r.lineno, "PyFormatter.format_default_value_enum", shape, "the enum default is constructed from a number (`Enum(0)`): the compiler accepts enums without that value (only the linter warns), for which the generated module raises ValueError at import / instantiation", witness="enum Gear : uint3 { GEAR_ONE = 1 }  message M { Gear g = 1 }  ->  import of the generated module fails", tag="enum-default:by-number"))
+            elif not by_member:
+                res.unsure(f"F8: enum default template `{shape}` is neither a member reference nor a numeric construction")
+    # suites: a wrapper whose before() opens a suite and whose wrapped list can be empty
+    pm = m.mod("impls/py/renderer.py")
+    wrapper = m.cls("BlockWrapper", "renderer/block.py")
+    for c in pm.classes.values():
+        if not m.is_subclass(c, wrapper):
+            continue
+        bf = m.lookup(c, "before")
+        wr = c.methods.get("wraps")
+        if bf is None or wr is None or bf.cls is wrapper:
+            continue
+        # last line pushed by before() (directly or through a helper of the same class)
+        pushed: List[str] = []
+        for n in ast.walk(bf.node):
+            if isinstance(n, ast.Call) and isinstance(n.func, ast.Attribute) and isinstance(n.func.value, ast.Name) and n.func.value.id == "self":
+                if n.func.attr == "push" and n.args:
+                    pushed.append(_fstring_shape(n.args[0]) if isinstance(n.args[0], ast.JoinedStr) else (n.args[0].value if isinstance(n.args[0], ast.Constant) else "?"))
+                elif n.func.attr in c.methods and n.func.attr.startswith("render_"):
+                    for n2 in ast.walk(c.methods[n.func.attr].node):
+                        if isinstance(n2, ast.Call) and isinstance(n2.func, ast.Attribute) and n2.func.attr == "push" and n2.args:
+                            pushed.append(_fstring_shape(n2.args[0]) if isinstance(n2.args[0], ast.JoinedStr) else (n2.args[0].value if isinstance(n2.args[0], ast.Constant) else "?"))
+        opens = [p for p in pushed if isinstance(p, str) and p.rstrip().endswith(":")]
+        if not opens or not pushed[-1].rstrip().endswith(":"):
+            continue
+        # wrapped class
+        wrapped = None
+        for n in ast.walk(wr.node):
+            if isinstance(n, ast.Return) and isinstance(n.value, ast.Call) and isinstance(n.value.func, ast.Name):
+                wrapped = pm.classes.get(n.value.func.id)
+        if wrapped is None:
+            continue
+        bl = wrapped.methods.get("blocks")
+        can_be_empty = False
+        has_fallback = False
+        if bl is not None:
+            t = src_of(bl.node)
+            can_be_empty = bool(re.search(r"for \w+ in self\.d\.(fields|sorted_fields)\(\)", t))
+            has_fallback = "Pass" in t or "'pass'" in t or bool(re.search(r"\.append\(\s*Block\w+\(", t)) or "BlockMessageSize" in t
+            # a composition of several fixed blocks is never empty
+            if re.search(r"return \[\s*Block\w+\(", t) and not can_be_empty:
+                continue
+        res.inst(wrapper=c.name, opens=opens[-1], wrapped=wrapped.name, can_be_empty=can_be_empty, has_fallback=has_fallback)
+        if can_be_empty and not has_fallback:
+            # does before()/after() itself add a statement when the collection is empty?
+            scan = [bf.node] + [f2.node for nm, f2 in c.methods.items() if nm.startswith("render_")]
+            guard = any("fields()" in src_of(n.test) or "nfields()" in src_of(n.test) for fnode in scan for n in ast.walk(fnode) if isinstance(n, ast.If))
+            if not guard:
+                res.bad(Finding("F8", pm.rel, c.node.lineno, c.name, opens[-1], f"`{opens[-1]}` opens a suite whose body is the list of {wrapped.name}; for a definition without members the body is empty and the generated module does not parse", witness="enum E : uint3 {}  ->  `class E(IntEnum):` followed by nothing: IndentationError on import", tag=f"{c.name}:empty-suite"))
+    return res
